@@ -90,6 +90,47 @@ def deref_stores(fn, pv, self_adt=None):
     return out
 
 
+def struct_writes(facts, fn, pv, adt):
+    """What `fn` puts into the fields of `adt`, however the value is built: `x.f = v` / `x.f[i] = v` stores and `S { f: v, .. }`
+    literals; for a literal whose field is a local array filled by indexed stores, those stores.
+    [dict(field, val, block, stmt, line, idx=[index terms], how)]"""
+    from .ir import op_place
+    out = []
+    for w in field_stores(facts):
+        if w["fn"] is fn and w["adt"] == adt and w["last"] and w["kind"] == "assign":
+            st = fn.blocks[w["block"]]["s"][w["stmt"]] if w["stmt"] < len(fn.blocks[w["block"]]["s"]) else None
+            idx = [pv.local(e["ix"], w["block"], w["stmt"]) for e in (st["p"]["p"] if st else []) if isinstance(e, dict) and "ix" in e]
+            out.append(dict(field=w["field"], val=pv._rvalue(w["rv"], w["block"], w["stmt"], 0) if "callres" not in w["rv"] else pv.local(w["rv"]["callres"]["d"]["l"], w["block"], w["stmt"] + 1),
+                            block=w["block"], stmt=w["stmt"], line=w["line"], idx=idx, how="store"))
+    for c in constructions(facts, adt):
+        if c["fn"] is not fn:
+            continue
+        for name, o in c["fields"].items():
+            pl = op_place(o)
+            filled = []
+            # follow plain copies of a local back to the array that was filled
+            for _ in range(3):
+                if pl is None or pl.get("p"):
+                    break
+                ds = [d for d in pv.defs.get(pl["l"], []) if d[2] is None]
+                if len(ds) == 1 and ds[0][3].get("k") == "=" and "use" in ds[0][3]["rv"] and op_place(ds[0][3]["rv"]["use"]) is not None \
+                        and not op_place(ds[0][3]["rv"]["use"]).get("p") and not any(d[2] for d in pv.defs.get(pl["l"], [])):
+                    pl = op_place(ds[0][3]["rv"]["use"])
+                    continue
+                break
+            if pl is not None and not pl.get("p"):
+                for d in pv.defs.get(pl["l"], []):
+                    if d[2] and any(isinstance(e, dict) and ("ix" in e or "ci" in e) for e in d[2]) and d[3].get("k") == "=":
+                        filled.append(d)
+            if filled:
+                for (bi, si, proj, st) in filled:
+                    idx = [pv.local(e["ix"], bi, si) if "ix" in e else ("const", e["ci"], None, "usize") for e in proj if isinstance(e, dict) and ("ix" in e or "ci" in e)]
+                    out.append(dict(field=name, val=pv._rvalue(st["rv"], bi, si, 0), block=bi, stmt=si, line=st.get("l"), idx=idx, how="literal+indexed"))
+            else:
+                out.append(dict(field=name, val=pv.operand(o, c["block"], c["stmt"]), block=c["block"], stmt=c["stmt"], line=c["line"], idx=[], how="literal"))
+    return out
+
+
 def writers_of(facts, adt, field, kinds=("assign", "mutref")):
     return [w for w in field_stores(facts) if w["adt"] == adt and w["field"] == field and w["kind"] in kinds]
 
